@@ -118,7 +118,7 @@ class Scenario:
             for p in pkts:
                 if p['type'] == 0 and isinstance(p['data'], dict) and 'sid' in p['data']:
                     self.conn[(tid, p['ns'])] = p['data']['sid']
-                elif p['type'] in (1, 4):
+                elif p['type'] == 1:
                     self.conn.pop((tid, p['ns']), None)
                 elif p['type'] in (2, 5) and p['id'] is not None:
                     self.outstanding.append((tid, p['ns'], p['id']))
